@@ -107,6 +107,13 @@ Proof.
   inversion Hs'; subst. destruct T as [_ T]. specialize (T eq_refl). discriminate.
 Qed.
 
+Lemma find_pair_top scan k : find_pair scan 0 (length scan - 1) = Some k ->
+  adjacent_pair_at scan k /\ (0 <= k)%nat /\
+  forall j, (0 <= j < k)%nat -> ~ adjacent_pair_at scan j.
+Proof.
+  destruct scan as [|a scan']; [discriminate|]. apply find_pair_some. cbn [length]. lia.
+Qed.
+
 (* ------------------------------------------------------------ the cup layer *)
 Lemma cup_box_adj x : cup_box [x] [ob_r x] = Ok (Box KCup (-2) [x; ob_r x] [] false None).
 Proof.
@@ -152,7 +159,7 @@ Lemma tensor_all_words ws : forall acc, wf acc ->
     doffs d = doffs acc ++ word_offs (len (dcod acc)) ws.
 Proof.
   induction ws as [|w ws IH]; intros acc W; cbn [map tensor_all flat_map word_offs].
-  - exists acc. rewrite !app_nil_r. auto.
+  - exists acc. rewrite !app_nil_r. split; [reflexivity|]. split; [exact W|]. repeat split; reflexivity.
   - destruct (dtensor_ok acc (word_diagram w) W (dbox_wf _)) as (a & Ea & Wa & Da & Ca & Ba & Oa).
     rewrite Ea. cbn [bind]. destruct (IH a Wa) as (d & Ed & Wd & Dd & Cd & Bd & Od).
     exists d. split; [exact Ed|]. split; [exact Wd|].
@@ -173,7 +180,7 @@ Lemma eager_loop_spec ws target fuel : forall result d,
 Proof.
   induction fuel as [|fuel IH]; intros result d Inv H; cbn [eager_loop] in H; [discriminate|].
   destruct (find_pair (dcod result) 0 (length (dcod result) - 1)) as [i|] eqn:F.
-  - apply find_pair_some in F; [|destruct (dcod result); cbn; lia].
+  - apply find_pair_top in F.
     destruct F as ((pre & x & post & Hs & Hl) & _ & _).
     destruct (cup_layer pre post x) as (lay & El & Wl & Dl & Cl & Bl & Ol). cbn zeta in El.
     rewrite <- Hs, Hl in El.
@@ -206,7 +213,7 @@ Lemma eager_loop_err target fuel : forall result e,
 Proof.
   induction fuel as [|fuel IH]; intros result e W Hf H; [lia|]. cbn [eager_loop] in H.
   destruct (find_pair (dcod result) 0 (length (dcod result) - 1)) as [i|] eqn:F.
-  - apply find_pair_some in F; [|destruct (dcod result); cbn; lia].
+  - apply find_pair_top in F.
     destruct F as ((pre & x & post & Hs & Hl) & _ & _).
     destruct (cup_layer pre post x) as (lay & El & Wl & Dl & Cl & Bl & Ol). cbn zeta in El.
     rewrite <- Hs, Hl in El.
@@ -231,7 +238,7 @@ Theorem eager_parse_spec_lemma ws target d : eager_parse ws target = Ok d -> par
 Proof.
   unfold eager_parse. destruct (tensor_all_words ws (did []) (did_wf _)) as (r & Er & Wr & Dr & Cr & Br & Or).
   rewrite Er. cbn [bind]. intros H.
-  destruct (eager_loop_spec ws target _ r d) as ((W & D0 & cups & offs & B & FC & O) & C); [|exact H|].
+  destruct (eager_loop_spec ws target (S (length (dcod r))) r d) as ((W & D0 & cups & offs & B & FC & O) & C); [|exact H|].
   - split; [exact Wr|]. split; [rewrite Dr; reflexivity|]. exists [], [].
     cbn [did dboxes doffs dcod app len length Z.of_nat] in *. rewrite !app_nil_r. auto.
   - unfold parse_of. split; [exact W|]. split; [exact D0|]. split; [exact C|]. eauto.
@@ -257,7 +264,7 @@ Lemma eager_loop_contracts target fuel : forall result d,
 Proof.
   induction fuel as [|fuel IH]; intros result d W H; cbn [eager_loop] in H; [discriminate|].
   destruct (find_pair (dcod result) 0 (length (dcod result) - 1)) as [i|] eqn:F.
-  - apply find_pair_some in F; [|destruct (dcod result); cbn; lia].
+  - apply find_pair_top in F.
     destruct F as ((pre & x & post & Hs & Hl) & _ & _).
     destruct (cup_layer pre post x) as (lay & El & Wl & Dl & Cl & Bl & Ol). cbn zeta in El.
     rewrite <- Hs, Hl in El.
@@ -368,5 +375,5 @@ Proof. vm_compute. reflexivity. Qed.
 
 Example brute_force_example :
   let n := Ob 1 0 in let s := Ob 2 0 in
-  exists ds, brute_force [(10, [n]); (11, [ob_r n; s])] [s] 3 30 = Ok ds /\ length ds = 3%nat.
+  exists ds, brute_force [(10, [n]); (11, [ob_r n; s])] [s] 3 30 = Ok ds /\ length ds = 1%nat.
 Proof. cbn zeta. eexists. split; [vm_compute; reflexivity|reflexivity]. Qed.
